@@ -13,6 +13,7 @@ Written independently of the code's structure (no generated table is used here):
 * an object that is not in the tree (removed, refused, replaced) names neither.
 -/
 namespace CssVerif.SheetEdit
+open CssVerif.Proto (Cps)
 
 def rank : Kind → Option Nat
   | .charset => some 0
@@ -183,6 +184,40 @@ def cleanDec : (st : St) → (ops : List Op) → Decidable (Clean st ops)
     have : Decidable (Clean (step st op).1 ops) := cleanDec (step st op).1 ops
     by unfold Clean; exact inferInstance
 instance (st : St) (ops : List Op) : Decidable (Clean st ops) := cleanDec st ops
+
+/-! ## serialise + reparse: what must survive -/
+
+mutual
+/-- the tree of rule kinds -/
+def Rule.shape : Rule → Spec
+  | ⟨_, k, _, _, _, _, _, _, kids⟩ => ⟨k, [], [], [], [], Rule.shapes kids⟩
+def Rule.shapes : List Rule → List Spec
+  | [] => []
+  | r :: rs => r.shape :: Rule.shapes rs
+end
+
+mutual
+/-- the rule on its own survives being written and parsed (after the sheet's @namespace rules): its selectors use
+declared namespace URIs only (`uris`), an @page rule holds each margin once (the parser merges a repeated margin),
+an @namespace rule has a URI — at every depth. This is what the harness checks rule by rule before it blames the
+ORDER for a loss. -/
+def Rule.roundTrips (uris : List Cps) : Rule → Bool
+  | ⟨_, k, _, uri, _, used, _, _, kids⟩ =>
+    (if k = .style then used.all (fun u => uris.contains u) else true) &&
+    (if k = .page then decide ((kids.map (·.pre)).Nodup) else true) &&
+    (if k = .ns then !uri.isEmpty else true) &&
+    Rule.roundTripsL uris kids
+def Rule.roundTripsL (uris : List Cps) : List Rule → Bool
+  | [] => true
+  | r :: rs => r.roundTrips uris && Rule.roundTripsL uris rs
+end
+
+/-- the @namespace rules of the list: (prefix, URI) in document order -/
+def nsPairs (l : List Rule) : List (Cps × Cps) := (l.filter (fun r => r.kind = .ns)).map (fun r => (r.pre, r.uri))
+
+/-- every @namespace rule is effective: prefixes pairwise distinct, URIs pairwise distinct (what `_cleanNamespaces`
+establishes) -/
+def NsClean (l : List Rule) : Prop := ((nsPairs l).map (·.1)).Nodup ∧ ((nsPairs l).map (·.2)).Nodup
 
 /-- Bool rendering of `Valid` (for `decide` at witnesses and for the driver) -/
 def validB (st : St) : Bool :=
